@@ -190,6 +190,23 @@ func c14Gen() *rapid.Generator[string] {
 				sb.WriteByte('x')
 			}
 			s := sb.String()
+			if rapid.IntRange(0, 2).Draw(t, "tail") == 0 {
+				// the last bytes are something cleaning removes (line ends as a file or the clipboard gives
+				// them, blanks, controls): the limit is on the string as given, so a text that is over it
+				// only through such a tail is still over it, and one at the limit with the tail inside is not
+				tail := rapid.SampledFrom([]string{"\r\n", "\n", "\r", "\r\n\r\n", " ", "  ", "\t", "\x00", "\u00a0", "\u2028", "\u3000", "\x7f", "\n ", " \r\n"}).Draw(t, "tail-text")
+				switch rapid.IntRange(0, 2).Draw(t, "tail-mode") {
+				case 0: // appended: total = target + tail
+					s += tail
+				case 1: // inside: total = target
+					if len(s) > len(tail) {
+						s = strings.ToValidUTF8(s[:len(s)-len(tail)], "x") + tail
+					}
+				default: // body exactly at the limit, over it only through the tail
+					s = strings.Repeat("a", 1000-rapid.IntRange(0, 1).Draw(t, "body-short")) + tail
+				}
+				return s
+			}
 			if rapid.Bool().Draw(t, "edge") {
 				s = piece.Draw(t, "pre") + s
 				if len(s) > target+8 {
